@@ -6,6 +6,7 @@ import (
 	"path/filepath"
 	"strings"
 	"testing"
+	"time"
 
 	"github.com/ipld/go-storethehash/store"
 	"github.com/ipld/go-storethehash/store/types"
@@ -22,6 +23,12 @@ type C11Case struct {
 	// time to time), never (1: records are reaped file by file only) or
 	// always (2).
 	IGCMode int `json:"igc_mode,omitempty"`
+	// Background > 0: after the kill phase the store is closed and reopened
+	// with both periodic collectors running (0.2 ms interval; time limit per
+	// cycle: 1 none, 2 = 50 us, 3 = 500 us) and the harness only waits: the
+	// collectors' own cycle logic (tick, time limit, resume, the every-n-th
+	// scan for unreferenced files) has to release the files.
+	Background int `json:"background,omitempty"`
 }
 
 type c11Stats struct {
@@ -31,10 +38,11 @@ type c11Stats struct {
 	Cycles          int
 	Relocated       int
 	SkippedPrecond  bool
+	Background      string // "", "released", "inconclusive"
 }
 
 const c11Rule = "rapid-generated histories on the multihash primary (small files, one fixed low-use threshold 1..100 per case, every GC cycle preceded by a flush as the statement requires) followed by a generated kill phase that removes or overwrites every key living in a non-current primary file and rewrites every bucket that refers into a non-current index file, flush, then [primary cycle, index cycle, flush] repeated (the index cycles with the scan for unreferenced files every other time, never, or always - drawn per case); " +
-	"oracle = validity predicates: the directory becomes byte-identical across two consecutive rounds within 10+3*(records+files) rounds; at that fixed point every targeted primary file and every unreferenced targeted index file has length 0 or is gone, a dead non-empty file that is the oldest one when the first cycle visits it is unlinked and the first-file number advances past it, no non-current primary file with live records is low-use by the case's threshold; StorageSize right after a cycle <= StorageSize right before it + 2, and growth at the following flush <= outstanding work reported before that flush + 2; contents still equal the reference map; after a close/reopen and three more cycles an empty non-current file is never the header's first file; " +
+	"oracle = validity predicates: the directory becomes byte-identical across two consecutive rounds within 10+3*(records+files) rounds; at that fixed point every targeted primary file and every unreferenced targeted index file has length 0 or is gone, a dead non-empty file that is the oldest one when the first cycle visits it is unlinked and the first-file number advances past it, no non-current primary file with live records is low-use by the case's threshold; StorageSize right after a cycle <= StorageSize right before it + 2, and growth at the following flush <= outstanding work reported before that flush + 2; contents still equal the reference map; in a quarter of the cases the closure is left to the store's own periodic collectors instead (0.2 ms interval, cycle time limit none / 50 us / 500 us; verdict after >= 60 cycles of each collector, counted at their named points); after a close/reopen and three more cycles an empty non-current file is never the header's first file; " +
 	"non-trivial = the kill phase emptied >=2 primary files one of which was not the oldest; distinct = distinct canonical JSON of the case"
 
 func genC11(t *rapid.T) C11Case {
@@ -51,7 +59,73 @@ func genC11(t *rapid.T) C11Case {
 	c.LowUse = []int{1, 10, 25, 50, 75, 85, 100}[rapid.IntRange(0, 6).Draw(t, "lowuse")]
 	c.KillMode = rapid.SliceOfN(rapid.IntRange(0, 1), len(c.Seq.Keys), len(c.Seq.Keys)).Draw(t, "killmode")
 	c.IGCMode = weighted(t, "igcmode", []int{2, 2, 1})
+	c.Background = weighted(t, "background", []int{9, 1, 1, 1})
 	return c
+}
+
+// c11Background: see C11Case.Background. The bound is counted in cycles, not
+// in time: the verdict "not released" needs >= 60 completed cycles of each
+// collector after the kill phase; "collector not cycling" needs fewer than 3
+// cycles of a collector in 3 s at a 0.2 ms interval (four orders of magnitude
+// of slack); everything in between is inconclusive.
+func c11Background(r *seqRunner, step int, c C11Case, targetsP, targetsI map[uint32]bool, cs *c11Stats) *Violation {
+	if v := r.closeStore(step, "c11-background"); v != nil {
+		return v
+	}
+	cfg := r.c.Cfg
+	limit := []time.Duration{0, 0, 50 * time.Microsecond, 500 * time.Microsecond}[c.Background%4]
+	pc := newPointCounter()
+	pc.install()
+	defer pc.uninstall()
+	s, err := store.OpenStore(bg, cfg.Primary, filepath.Join(r.dir, dataBase), filepath.Join(r.dir, idxBase), cfg.Immutable,
+		store.IndexBitSize(cfg.Bits), store.IndexFileSize(cfg.IdxSize), store.PrimaryFileSize(cfg.PrimSize), store.FileCacheSize(cfg.FileCache),
+		store.GCInterval(200*time.Microsecond), store.GCTimeLimit(limit), store.SyncInterval(time.Millisecond), store.BurstRate(1<<40), store.SyncOnFlush(cfg.Sync))
+	if err != nil {
+		return viol("open-error|c11-background|"+errClass(err), step, "reopen with periodic collectors: %v", err)
+	}
+	r.s = s
+	s.Start()
+	released := func() (string, bool) {
+		prim := fileSizes(r.dir, dataBase)
+		for n := range targetsP {
+			if sz, exists := prim[n]; exists && sz != 0 {
+				return fmt.Sprintf("primary file %d still has %d bytes", n, sz), false
+			}
+		}
+		idx := fileSizes(r.dir, idxBase)
+		for n := range targetsI {
+			if sz, exists := idx[n]; exists && sz != 0 {
+				return fmt.Sprintf("index file %d still has %d bytes", n, sz), false
+			}
+		}
+		return "", true
+	}
+	deadline := time.Now().Add(3 * time.Second)
+	what := ""
+	for {
+		var ok bool
+		if what, ok = released(); ok {
+			cs.Cycles = pc.get("pgc.begin")
+			cs.Background = "released"
+			return nil
+		}
+		p, i := pc.get("pgc.begin"), pc.get("igc.begin")
+		if p >= 60 && i >= 60 {
+			clause := "dead-primary-file-not-released"
+			if strings.HasPrefix(what, "index") {
+				clause = "unreferenced-index-file-not-released"
+			}
+			return viol(clause+"|background|", step, "%s after %d primary and %d index GC cycles of the periodic collectors (time limit %v) on an otherwise idle store", what, p, i, limit)
+		}
+		if time.Now().After(deadline) {
+			if p < 3 || i < 3 {
+				return viol("no-fixed-point|background|collector-not-cycling", step, "%s, and the periodic collectors ran only %d primary / %d index cycles in 3 s at a 0.2 ms interval (time limit %v)", what, p, i, limit)
+			}
+			cs.Background = "inconclusive"
+			return nil
+		}
+		time.Sleep(2 * time.Millisecond)
+	}
 }
 
 func fileSizes(dir, base string) map[uint32]int64 {
@@ -232,6 +306,9 @@ func c11Closure(r *seqRunner, step int, c C11Case, pc *pointCounter, csp *c11Sta
 		}
 		cs.TargetIndex = len(targetsI)
 
+		if c.Background > 0 && afterCleanHistory {
+			return c11Background(r, step, c, targetsP, targetsI, &cs)
+		}
 		// ---- cycles to a fixed point
 		nFiles := len(fileSizes(r.dir, dataBase)) + len(fileSizes(r.dir, idxBase))
 		liveRecords := len(r.model)
@@ -465,6 +542,9 @@ func TestC11(t *testing.T) {
 		}
 		if cs.Cycles > 3 {
 			cl = append(cl, "rounds>3")
+		}
+		if cs.Background != "" {
+			cl = append(cl, "closure-by-periodic-collectors:"+cs.Background)
 		}
 		return cl
 	}
